@@ -177,6 +177,9 @@ def _get_site_targets(zone: Zone):
             # _get_process_targets(z)
             if z.identifier == ZoneType.O.value:
                 _get_unit_operation_targets(z)
+                # The site-level sum below needs a target for every sub-zone
+                if f"{z.name}/{TargetType.DI.value}" not in z.targets:
+                    compute_direct_integration_targets(z)
             elif z.identifier == ZoneType.P.value:
                 _get_process_targets(z)
             elif z.identifier == ZoneType.S.value:
